@@ -483,3 +483,4 @@ Theorem acc_open_until_full b n o :
 Proof.
   intros A M N. unfold gate, occupied. rewrite A, M, N. simpl. rewrite orb_true_r, andb_true_r. reflexivity.
 Qed.
+
